@@ -228,7 +228,7 @@ func main() {
 		Rule:        "states = shapes built from the expression tree enumeration (leaf menu x combinator menus, depth <= 2, thorough 3) and probed; transitions = Evaluate calls on the probe lattice; non-trivial = shapes with at least one strictly negative probe point",
 		Samples:     []any{n2[0].Name, n2[len(n2)/2].Name, n3[len(n3)/3].Name, n3[len(n3)-1].Name, map[string]any{"nodes_2d": len(n2), "nodes_3d": len(n3), "rejected_by_constructor": rejected}},
 		Exhaustive:  true,
-		Bounds:      map[string]any{"tree_depth": 3, "lattice_2d": fmt.Sprintf("(2*%d+1)^2 + box planes +-delta", N2), "lattice_3d": fmt.Sprintf("(2*%d+1)^3 + box planes +-delta", N3), "region": "twice the reported box, at least +-1"},
+		Bounds:      map[string]any{"tree_depth": 3, "lattice_2d": fmt.Sprintf("(2*%d+6)^2 points: 2N per axis over the enlarged box (irrationally offset) + the box planes +-1e-6 and +-3%% of the margin", N2), "lattice_3d": fmt.Sprintf("(2*%d+6)^3 points: 2N per axis over the enlarged box (irrationally offset) + the box planes +-1e-6 and +-3%% of the margin", N3), "region": "twice the reported box, at least +-1"},
 		Extra:       map[string]any{"distinct_root_constructors": roots.Len(), "rejected_by_constructor": rejected},
 		Assumptions: []string{"space is sampled on a lattice and parameters on a menu", "Gyroid3D is excluded (documented as unbounded)", "a violation is attributed to the innermost failing sub-expression"},
 	})
